@@ -40,7 +40,8 @@ class Trend(Family):
 
     def configs(self, tier):
         Ls = (2, 3, 4, 5, 6) if tier == "quick" else (2, 3, 4, 5, 6, 8, 10)
-        return [{"L": L, "normalized": nz, "via": via} for L in Ls for nz in (False, True) for via in ("process", "weaver")]
+        return [{"L": L, "normalized": nz, "via": via} for L in Ls for nz in (False, True) for via in ("process", "weaver")] + \
+               [{"L": 3, "normalized": nz, "via": "weaver-after-history"} for nz in (False, True)]
 
     def run(self, ctx, inst, L, normalized, via):
         from traffic_weaver import process, Weaver
@@ -51,6 +52,14 @@ class Trend(Family):
         x_in, y_in = arr(ctx, xs), arr(ctx, list(ys))
         if via == "process":
             rx, ry = process.trend(x_in, y_in, f, normalized)
+        elif via == "weaver-after-history":
+            # a Weaver after an arbitrary domain history (accumulated scale factors arbitrary): the trend still acts on
+            # the CURRENT abscissae
+            from checks.weaverfam import make_state
+            w = make_state(ctx, L, "tracked").w
+            xs, ys = list(w.x), list(w.y)
+            w.trend(f, normalized=normalized)
+            rx, ry = w.get()
         else:
             w = Weaver(arr(ctx, xs), arr(ctx, list(ys))).trend(f, normalized=normalized)
             rx, ry = w.get()
@@ -84,17 +93,23 @@ class ShiftScale(Family):
     doc = "Weaver.shift_x/shift_y/scale_x/scale_y with symbolic parameters"
 
     def configs(self, tier):
-        return [{"L": L, "op": op} for L in ((2, 3, 5) if tier == "quick" else (2, 3, 5, 8))
-                for op in ("shift_x", "shift_y", "scale_x", "scale_y")]
+        return [{"L": L, "op": op, "state": st} for L in ((2, 3, 5) if tier == "quick" else (2, 3, 5, 8))
+                for op in ("shift_x", "shift_y", "scale_x", "scale_y") for st in ("fresh", "tracked") if st == "fresh" or L == 3]
 
-    def run(self, ctx, inst, L, op):
+    def run(self, ctx, inst, L, op, state="fresh"):
         from traffic_weaver import Weaver
-        xs, ys = ctx.reals("x", L), ctx.reals("y", L)
-        increasing(ctx, xs)
         s = ctx.real("s")
         if op.startswith("scale"):
             ctx.assume(ctx.ne(s, 0))
-        w = Weaver(arr(ctx, xs), arr(ctx, ys))
+        if state == "fresh":
+            xs, ys = ctx.reals("x", L), ctx.reals("y", L)
+            increasing(ctx, xs)
+            w = Weaver(arr(ctx, xs), arr(ctx, ys))
+        else:
+            # after an arbitrary history: accumulated scale factors are arbitrary
+            from checks.weaverfam import make_state
+            w = make_state(ctx, L, "tracked").w
+            xs, ys = list(w.x), list(w.y)
         getattr(w, op)(s)
         rx, ry = w.get()
         for i in range(L):
